@@ -9,6 +9,7 @@ import (
 	"net/http"
 	"net/http/httptest"
 	"reflect"
+	"sort"
 	"strings"
 	"time"
 
@@ -118,6 +119,7 @@ func c03BuildStack(cfg c03Config, backend ociregistry.Interface) (ociregistry.In
 // dualSys applies every operation to the direct registry and to the stack.
 type dualSys struct {
 	r          *vcore.Run
+	preKey     string
 	cfg        c03Config
 	u          *universe
 	a, b       *regSys
@@ -144,7 +146,7 @@ func (s *dualSys) caseOf(op *Op) c03Case {
 
 func c03Alphabet(u *universe, thorough bool) alphabetConfig {
 	c := alphabetConfig{Repos: u.Repos, BadRepo: false, Chunked: true, MaxUploads: 1, MaxUpload: 3,
-		Manifests: []int{0, 1, 2, 3, 5, 6}, Blobs: []int{0, 1, 2}, Deletes: true, Mounts: true, BadPushes: true, UntaggedToo: true, ReadsOp: true}
+		Manifests: []int{0, 1, 2, 3, 5, 6}, Blobs: []int{0, 1, 2}, Deletes: true, Mounts: true, BadPushes: true, UntaggedToo: true, ReadsOp: true, CancelAfterCommit: true}
 	for i, m := range u.Manifests {
 		if m.Name == "mbig" || m.Name == "mbig2" || m.Name == "mparam" {
 			c.Manifests = append(c.Manifests, i)
@@ -217,7 +219,11 @@ func c03SameCode(q string, a, b string) bool {
 	return false
 }
 
+// PreSweepKey: see regSys.PreSweepKey.
+func (s *dualSys) PreSweepKey() string { return s.preKey }
+
 func (s *dualSys) Apply(op Op, check bool) (tainted bool) {
+	s.preKey = ""
 	fp := fmt.Sprintf("C03/%s/%s", s.cfg.Stack, op.K)
 	var outA, outB Outcome
 	if s.r.Guard("diff", fp, s.caseOf(&op), func() {
@@ -271,6 +277,9 @@ func (s *dualSys) Apply(op Op, check bool) (tainted bool) {
 			}
 		}
 	}
+	if check {
+		s.preKey = s.Key()
+	}
 	// several readers alive at once on one client: open them all, then read them all
 	s.r.Guard("diff", fp+"/held-readers", s.caseOf(nil), func() {
 		type held struct {
@@ -316,7 +325,27 @@ func (s *dualSys) Apply(op Op, check bool) (tainted bool) {
 	})
 	// reads through the stack equal reads on the direct registry; and the two backends agree
 	s.r.Guard("diff", fp+"/sweep", s.caseOf(nil), func() {
-		for _, q := range s.a.queries {
+		queries := s.a.queries
+		// content committed through upload sessions is not part of the fixed universe: read it back too
+		known := map[string]bool{}
+		for _, q := range queries {
+			known[q.Repo+"|"+q.Dig] = true
+		}
+		var extra []Query
+		for name, mr := range s.a.model.Repos {
+			for d := range mr.Blobs {
+				if !known[name+"|"+string(d)] {
+					extra = append(extra, Query{K: "GetBlob", Repo: name, Dig: string(d), What: "uploaded"}, Query{K: "ResolveBlob", Repo: name, Dig: string(d), What: "uploaded"})
+				}
+			}
+		}
+		if len(extra) > 0 {
+			sort.Slice(extra, func(i, j int) bool {
+				return extra[i].Repo+extra[i].Dig+extra[i].K < extra[j].Repo+extra[j].Dig+extra[j].K
+			})
+			queries = append(append([]Query(nil), queries...), extra...)
+		}
+		for _, q := range queries {
 			oa := runQuery(s.a.ctx, s.memA, q)
 			ob := runQuery(s.b.ctx, s.b.reg, q)
 			s.log = append(s.log, ob.Text())
@@ -616,6 +645,8 @@ func c03Seeds() [][]Op {
 		{{K: "PushBlob", Repo: "R1", B: 2}, {K: "Start", Repo: "R0"}, {K: "Write", H: 0, Piece: "a"}},
 		// an upload that has just been resumed: the next writes go through a resumed client writer
 		{{K: "Start", Repo: "R0"}, {K: "Write", H: 0, Piece: "a"}, {K: "Resume", H: 0, Off: "size"}},
+		// a committed upload whose writer is still in the caller's hands (the deferred Cancel idiom)
+		{{K: "PushBlob", Repo: "R0", B: 1}, {K: "Start", Repo: "R0"}, {K: "Write", H: 0, Piece: "bc"}, {K: "Commit", H: 0}},
 	}
 }
 
